@@ -352,10 +352,97 @@ def env_empty_stream(ctx, res, n):
                                 {"stream": "env-empty", "fmt": fmt, "saved": ee.values, "reloaded": back})
 
 
+def container_stream(ctx, res, n):
+    """shapes the schema generator of the history stream does not produce: configurations (plain schemas and config types) held below
+    nested containers, and typed dicts whose keys have an on-disk form of their own (binary keys, both encodings). The rendered tree is
+    plain data; every format gives the values back."""
+    import cincoconfig as cc
+    rng = ctx.rng
+    for i in range(n):
+        pt = cc.Schema()
+        pt.label = cc.StringField()
+        pt.n = cc.IntField(default=0)
+        pt.raw = cc.BytesField(encoding=rng.choice(["base64", "hex"]))
+        T = cc.make_type(pt, "Pt%d" % i) if rng.random() < 0.6 else pt
+        s = cc.Schema()
+        s.grid = cc.ListField(cc.ListField(T))
+        s.by_group = cc.DictField(cc.StringField(), cc.ListField(T))
+        s.flat = cc.ListField(T)
+        s.tokens = cc.DictField(cc.BytesField(), cc.IntField())
+        s.hexes = cc.DictField(cc.BytesField(encoding="hex"), cc.StringField())
+        s.blob = cc.BytesField(encoding="hex")
+        s.inner.blobs = cc.ListField(cc.BytesField(encoding="hex"))
+
+        def raw():
+            return rng.choice([b"", b"\x00\x00\xab", b"\x01", b"\x0f\xff", b"hello", b"\x00\xff\x10", bytes(rng.getrandbits(8) for _ in range(rng.randint(1, 5)))])
+
+        def point():
+            c = T()                      # (a map given for an item is read as on-disk data; a ready-made configuration holds values)
+            c.label = "p%d" % rng.randint(0, 99)
+            c.n = rng.randint(0, 9)
+            c.raw = raw()
+            return c
+        values = {"grid": [[point() for _ in range(rng.randint(0, 2))] for _ in range(rng.randint(1, 3))],
+                  "by_group": {g: [point() for _ in range(rng.randint(1, 2))] for g in rng.sample(["ops", "dev", "qa"], rng.randint(1, 2))},
+                  "flat": [point() for _ in range(rng.randint(0, 2))],
+                  "tokens": {raw() or b"k": j for j in range(rng.randint(1, 3))},
+                  "hexes": {raw() or b"h": "v%d" % j for j in range(rng.randint(1, 2))},
+                  "blob": raw(), "inner": {"blobs": [raw() for _ in range(rng.randint(0, 3))]}}
+        cfg = s()
+        try:
+            cfg.grid = values["grid"]
+            cfg.by_group = values["by_group"]
+            cfg.flat = values["flat"]
+            cfg.tokens = dict(values["tokens"])
+            cfg.hexes = dict(values["hexes"])
+            cfg.blob = values["blob"]
+            cfg.inner.blobs = list(values["inner"]["blobs"])
+        except Exception as e:  # noqa
+            res.case(None, kind="containers:setup-%s" % type(e).__name__)
+            continue
+        held = P_plain(cc.asdict(cfg))
+        case = {"stream": "containers", "config_type_items": T is not pt, "held": F.enc_val(held)}
+        try:
+            tree = cfg.to_tree()
+        except Exception as e:  # noqa
+            res.case(None, kind="containers:to_tree-raised")
+            continue
+        res.case(stable(F.enc_val(held)), sample=case if i < 1 else None, kind="containers")
+        if not exact_plain(tree):
+            res.violate("C02:tree-not-plain:nested-containers", "the rendered tree of a valid configuration is not plain data", dict(case, tree=repr(tree)[:300]))
+            continue
+        for fmt in FORMATS:
+            if not in_domain(fmt, tree):
+                continue                                   # (e.g. XML: the keys of a map have to be XML names)
+            fresh = s()
+            try:
+                fresh.loads(cfg.dumps(format=fmt), format=fmt)
+                back = P_plain(cc.asdict(fresh))
+            except Exception as e:  # noqa
+                back = "raised %s: %s" % (type(e).__name__, str(e)[:80])
+            if back != held:
+                res.violate("C02:reload-differs:containers", "a valid configuration does not come back from its own document",
+                            dict(case, fmt=fmt, reloaded=F.enc_val(back) if not isinstance(back, str) else back))
+                break
+
+
+def P_plain(v):
+    from cincoconfig.core import Config
+    import cincoconfig as cc
+    if isinstance(v, Config):
+        return P_plain(cc.asdict(v))
+    if isinstance(v, dict):
+        return {k: P_plain(x) for k, x in v.items()}
+    if isinstance(v, (list, tuple)):
+        return [P_plain(x) for x in v]
+    return v
+
+
 def run(ctx, n_quick=400, n_thorough=6000):
     res = Result()
     del PENDING[:]
     guard(res, "C02", env_empty_stream, ctx, res, ctx.n(3, 40))
+    guard(res, "C02", container_stream, ctx, res, ctx.n(40, 1200))
     P.run_stream(ctx, res, "C02", ctx.n(n_quick, n_thorough), oracle, gen_ops=gen_ops, ops_len=(3, 10),
                  schema_opts={"virtual": True}, label="save-reload")
     replies = ctx.model([r for _, _, r in PENDING])
